@@ -1,7 +1,7 @@
 """C05 Expert driver solves op(A)X=B and mutates A, B only as documented  —  R3 oracle groups equil/scale on ?gssvx, R8 on ?laqgs, R9."""
 from ..facts import Program
 from ..run import Check, AnalysisBroken
-from ..rules import r9_sibling
+from ..rules import r9_sibling, kernels
 from ..rules.effects import PathEffects
 from . import _drv, _gssvx, _expert
 
@@ -26,6 +26,7 @@ def run(tier):
     for cfgname in cfgs:
         prog = Program.load(which=('SRC',), cfg=cfgname)
         eff = PathEffects(prog)
+        kernels.run_factor(chk, 'C05.kern', prog, cfgname)
         for g in ('equil', 'scale'):
             chk.clause('C05.' + g, 'R3 oracle group `%s` of ?gssvx' % g)
         nleaves = 0
